@@ -18,6 +18,11 @@ REPO = os.environ.get('NETADDR_REPO', '/repo')
 
 W = {4: 32, 6: 128, 48: 48, 64: 64}
 
+# how the harness-built objects came about and what was done around the calls (reported in the evidence)
+import collections as _collections
+COUNTS = _collections.Counter()
+
+
 
 class Case(object):
     """One correspondence/oracle case.
@@ -367,7 +372,9 @@ def _make_net(ver, val, plen):
     mode = h & 3
     if mode < 2 or ver not in W or not (isinstance(val, int) and isinstance(plen, int)) \
             or not (0 <= plen <= W[ver] and 0 <= val < (1 << W[ver])):
+        COUNTS['object/net:fresh'] += 1
         return IPNetwork((val, plen), version=ver)
+    COUNTS['object/net:lived-in'] += 1
     w = W[ver]
     size = 1 << (w - plen)
     first = val - val % size
@@ -409,7 +416,9 @@ def _make_addr(ver, val):
     h = zlib.crc32(('%d:%d' % (ver, val)).encode())
     mode = h & 3
     if mode < 2 or ver not in W or not isinstance(val, int) or not 0 <= val < (1 << W[ver]):
+        COUNTS['object/addr:fresh'] += 1
         return IPAddress(val, ver)
+    COUNTS['object/addr:lived-in'] += 1
     m = (1 << W[ver]) - 1
     k = 1 + ((h >> 2) % 7)
     if mode == 2:
@@ -474,6 +483,7 @@ def _bystander_eui(ver, dialect, h):
     from netaddr import EUI
     if dialect is None or (h >> 16) % 3 == 0:
         return
+    COUNTS['call/bystander-eui-of-other-width-same-dialect'] += 1
     try:
         o = EUI(h & 0xffffff, version=112 - ver, dialect=dialect)
         _ = (str(o), o.words, o.bits())
@@ -491,10 +501,13 @@ def maybe_clone(o, h):
     k = (h >> 20) % 32
     try:
         if k == 0:
+            COUNTS['object/clone:copy'] += 1
             return copy.copy(o)
         if k == 1:
+            COUNTS['object/clone:deepcopy'] += 1
             return copy.deepcopy(o)
         if k < 8:
+            COUNTS['object/clone:pickle'] += 1
             return pickle.loads(pickle.dumps(o, min(k - 2, pickle.HIGHEST_PROTOCOL)))
     except Exception:
         return o
@@ -507,6 +520,7 @@ def paired(factory, key=str):
     to the object iterated), so both must give the same items; AssertionError otherwise"""
     it1 = iter(factory())
     it2 = iter(factory())
+    COUNTS['call/interleaved-second-iteration'] += 1
     n = 0
     while True:
         try:
@@ -534,6 +548,7 @@ def disturb(*objs):
     IPRange.__init__).  Addresses get `+= 1` / `-= 1`, networks another prefix length; errors are ignored."""
     from netaddr import IPAddress, IPNetwork
     for o in objs:
+        COUNTS['call/argument-or-result-moved-afterwards'] += 1
         try:
             if isinstance(o, IPAddress):
                 if o._value > 0:
